@@ -46,7 +46,8 @@ def bounds(tier):
         "single_block_documents": {"quick": 3 * 41796, "thorough": 3 * 755244}[tier],
         "block_pool": POOL_SIZE,
         "pairs": "all 30^2 ordered pairs x separator of 1..2 blank lines x 0..2 leading blank lines",
-        "triples": "all 30^3 ordered triples x (1..2)^2 separators x 0..2 leading blank lines",
+        "triples": "all 30^3 ordered triples x (1..2)^2 separators x %s leading blank lines" % (
+            "0 (quick tier, to stay inside the 30 s limit)" if tier == "quick" else "0..2"),
     }
 
 
@@ -257,6 +258,11 @@ def _author_dates(tier):
     return [(a, d) for a in range(3) for d in range(3)]
 
 
+def _triple_leads(tier):
+    # leading blank lines only interact with the first heading; pairs and single blocks carry all of 0..2
+    return (0,) if tier == "quick" else (0, 1, 2)
+
+
 def units(tier, seed):
     out = []
     for lead in range(3):
@@ -278,7 +284,7 @@ def unit_cost(u, tier):
         return 9 * n * len(_author_dates(tier))
     if u[0] == "pair":
         return 2 * POOL_SIZE * 3 * 2
-    return 3 * POOL_SIZE * 3 * 4
+    return 3 * POOL_SIZE * len(_triple_leads(tier)) * 4
 
 
 def _do(part, case):
@@ -353,7 +359,7 @@ def run_unit(u, tier, seed):
         return part
     _, i, j = u
     part.max_depth = 2 + 3 * 7 + 4
-    for lead in range(3):
+    for lead in _triple_leads(tier):
         for sep1 in (1, 2):
             part.states += 1              # (lead, block i, sep1, block j); shorter prefixes belong to the pair units
             part.transitions += 1
